@@ -159,6 +159,10 @@ def run_for(pid, root, rep, seed=0, jobs=16):
         variants.append(extract_temp(module, fn, seed % 4))
     for (module, fn) in fns[:5]:
         variants.append(api_synonym(module, fn, seed % 5))
+    for (module, fn) in fns[:5]:
+        variants.append(flip_compare(module, fn, seed % 6))
+    for (module, fn) in fns[:6]:
+        variants.append(guard_clause(module, fn, seed % 2))
     if not variants:
         rep.selftest = {'variants': 0}
         return
@@ -469,3 +473,91 @@ def _api_synonym(funcname, which, text):
 
 def api_synonym(file, funcname, which=0):
     return Variant('neutral: equivalent NumPy spelling at site %d of %s' % (which, funcname), 'neutral', file, transform=_functools.partial(_api_synonym, funcname, which))
+
+
+def _flip_compare(funcname, which, text):
+    """write the `which`-th single comparison of function `funcname` the other way round (a < b <-> b > a, a == b <-> b == a)"""
+    try:
+        tree = _ast.parse(text)
+    except SyntaxError:
+        return None
+    target = None
+    for n in _ast.walk(tree):
+        if isinstance(n, (_ast.FunctionDef, _ast.AsyncFunctionDef)) and n.name == funcname:
+            target = n
+            break
+    if target is None:
+        return None
+    flip = {_ast.Lt: '>', _ast.Gt: '<', _ast.LtE: '>=', _ast.GtE: '<=', _ast.Eq: '==', _ast.NotEq: '!='}
+    cands = [n for n in _ast.walk(target) if isinstance(n, _ast.Compare) and len(n.ops) == 1 and type(n.ops[0]) in flip
+             and n.lineno == n.end_lineno]
+    cands.sort(key=lambda c: (c.lineno, c.col_offset))
+    if which >= len(cands):
+        return None
+    n = cands[which]
+
+    def par(e):
+        t = _ast.unparse(e)
+        return t if isinstance(e, (_ast.Name, _ast.Constant, _ast.Subscript, _ast.Attribute, _ast.Call)) else '(%s)' % t
+    rep_ = '(%s %s %s)' % (par(n.comparators[0]), flip[type(n.ops[0])], par(n.left))
+    lines = text.split('\n')
+    b = lines[n.lineno - 1].encode('utf-8')
+    lines[n.lineno - 1] = (b[:n.col_offset] + rep_.encode('utf-8') + b[n.end_col_offset:]).decode('utf-8')
+    return '\n'.join(lines)
+
+
+def flip_compare(file, funcname, which=0):
+    return Variant('neutral: comparison %d of %s written the other way round' % (which, funcname), 'neutral', file,
+                   transform=_functools.partial(_flip_compare, funcname, which))
+
+
+def _guard_clause(funcname, which, text):
+    """turn the `which`-th `if c: <block>` that ends a loop body of function `funcname` (no else) into `if not (c): continue` + <block>"""
+    try:
+        tree = _ast.parse(text)
+    except SyntaxError:
+        return None
+    target = None
+    for n in _ast.walk(tree):
+        if isinstance(n, (_ast.FunctionDef, _ast.AsyncFunctionDef)) and n.name == funcname:
+            target = n
+            break
+    if target is None:
+        return None
+    cands = []
+    for lp in _ast.walk(target):
+        if isinstance(lp, (_ast.For, _ast.While)) and lp.body and isinstance(lp.body[-1], _ast.If) and not lp.body[-1].orelse:
+            st = lp.body[-1]
+            if st.test.lineno == st.test.end_lineno and st.body[0].lineno > st.lineno:
+                cands.append(st)
+    cands.sort(key=lambda c: c.lineno)
+    if which >= len(cands):
+        return None
+    st = cands[which]
+    lines = text.split('\n')
+    head = lines[st.lineno - 1]
+    indent = head[:len(head) - len(head.lstrip())]
+    first, last = st.body[0].lineno, st.end_lineno
+    # comment lines between the header and the first statement stay where they are
+    block = lines[st.lineno:last]
+    inner = None
+    for ln in block:
+        if ln.strip():
+            inner = ln[:len(ln) - len(ln.lstrip())]
+            break
+    if inner is None or not inner.startswith(indent) or len(inner) <= len(indent):
+        return None
+    step = len(inner) - len(indent)
+    new_block = []
+    for ln in block:
+        if ln.strip() and not ln.startswith(indent + ' ' * step):
+            return None
+        new_block.append(ln[step:] if ln.strip() else ln)
+    cond = _ast.unparse(st.test)
+    lines[st.lineno - 1:last] = [indent + 'if not (%s):' % cond, indent + ' ' * step + 'continue'] + new_block
+    return '\n'.join(lines)
+
+
+def guard_clause(file, funcname, which=0):
+    return Variant('neutral: trailing conditional %d of a loop in %s turned into a guard clause' % (which, funcname), 'neutral', file,
+                   transform=_functools.partial(_guard_clause, funcname, which))
